@@ -4,7 +4,7 @@ for each mutant that still builds and passes the (non-flaky) test suite, the
 quick checks of the properties tagged on the function are run against a scratch
 copy.  Prints survivors (passing tests AND silent checks) for manual triage:
 they are either equivalent mutants or holes in the contracts.
-usage: mutation_probe.py N [seed]"""
+usage: mutation_probe.py N [seed [regex-on-function-key]]"""
 import json, os, random, re, subprocess, sys, shutil, tempfile
 N = int(sys.argv[1]); seed = int(sys.argv[2]) if len(sys.argv) > 2 else 1
 random.seed(seed)
@@ -36,6 +36,8 @@ for fn in ('conn.go', 'server.go', 'client.go', 'util.go', 'proxy.go', 'prepared
 OPS = [(r' <= ', ' < '), (r' < ', ' <= '), (r' >= ', ' > '), (r' > ', ' >= '), (r' == ', ' != '), (r' != ', ' == '),
        (r' && ', ' || '), (r' \|\| ', ' && '), (r'\+ 1\b', '+ 2'), (r'- 1\b', '- 2'), (r'\b125\b', '126'), (r'\b126\b', '127'),
        (r'\b65536\b', '65535'), (r'\btrue\b', 'false'), (r'\bfalse\b', 'true'), (r'\+= ', '-= '), (r'\b0xf\b', '0x7'), (r'\bnil\b(?= \{)', 'nil && false')]
+if len(sys.argv) > 3:
+    cands = [c for c in cands if re.search(sys.argv[3], c[2])]
 random.shuffle(cands)
 done = 0; survivors = []; stats = {'nobuild': 0, 'tests_kill': 0, 'checks_kill': 0, 'survive': 0}
 for fn, i, key in cands:
